@@ -43,6 +43,29 @@ theorem skip_frameAux {gh : Gh} {s s' : LS} {us : List Nat} {p c st sz : Nat} {p
     (FrameAux.mk (haux.head.step_head hst hcnt) haux.tail)
 
 set_option linter.unusedVariables false in
+/-- `dfs_skipA` with the ghost data explicit (unchanged by the skip) -/
+theorem dfs_skipA_v (gh : Gh) (st sz : Nat) (ls : List (Nat × Nat)) (s : LS) (c : Nat) (cs : List Nat) (p : Nat)
+    (ps : List Nat)
+    (ce : Nat) (x : Int) (k : Nat) (hc : Core n s) (ht : TopOK s.op (k + 1) s.path s.choices ((st, sz) :: ls))
+    (hsk : s.skipDeage = false) (hage : s.op.age + 1 = s.path.length) (hch : s.choices = c :: cs)
+    (hpth : s.path = p :: ps) (hget : s.op.order.get (c - 1) = .ok ce)
+    (hon : (decide (s.count > 0) && hasPrefix s.flPath.toList ps.reverse) = true)
+    (hx : s.flOrbits[ce]? = some x) (hx0 : x ≥ 0)
+    (hJ : CertN n m nb ((st, sz) :: ls) s) (h : DNv n nb rf r gh ((st, sz) :: ls) s) :
+    DNv n nb rf r gh ((st, sz) :: ls) { s with choices := (c - 1) :: cs, skipDeage := true } := by
+  obtain ⟨hw, hG, hcov, haux⟩ := h
+  obtain ⟨m1, m2, m3, m4, m5⟩ := top_member hc ht hage hch hpth hget hw
+  have hcnt : 0 < s.count := by
+    simp only [Bool.and_eq_true, decide_eq_true_eq] at hon; exact hon.1
+  refine ⟨?_, ?_, ?_, ?_⟩
+  · exact walk_skip (c' := c - 1) s.bestOrbits true hch hw
+  · exact skip_globalInv_congr hG rfl rfl rfl rfl rfl rfl rfl rfl rfl rfl
+  · have := cov_skipA st sz ls s c cs p ps ce x k hc ht hage hch hpth hget hon hx hx0 hw hcov
+    exact skip_covFrames_path_eq hpth this
+  · rw [hpth, hch] at haux
+    exact skip_frameAux_path_eq hpth (skip_frameAux haux m3 hcnt rfl rfl rfl rfl)
+
+set_option linter.unusedVariables false in
 theorem dfs_skipA (st sz : Nat) (ls : List (Nat × Nat)) (s : LS) (c : Nat) (cs : List Nat) (p : Nat) (ps : List Nat)
     (ce : Nat) (x : Int) (k : Nat) (hc : Core n s) (ht : TopOK s.op (k + 1) s.path s.choices ((st, sz) :: ls))
     (hsk : s.skipDeage = false) (hage : s.op.age + 1 = s.path.length) (hch : s.choices = c :: cs)
@@ -51,33 +74,25 @@ theorem dfs_skipA (st sz : Nat) (ls : List (Nat × Nat)) (s : LS) (c : Nat) (cs 
     (hx : s.flOrbits[ce]? = some x) (hx0 : x ≥ 0)
     (hJ : CertN n m nb ((st, sz) :: ls) s) (h : DN n nb rf r ((st, sz) :: ls) s) :
     DN n nb rf r ((st, sz) :: ls) { s with choices := (c - 1) :: cs, skipDeage := true } := by
-  obtain ⟨gh, hw, hG, hcov, haux⟩ := h
-  obtain ⟨m1, m2, m3, m4, m5⟩ := top_member hc ht hage hch hpth hget hw
-  have hcnt : 0 < s.count := by
-    simp only [Bool.and_eq_true, decide_eq_true_eq] at hon; exact hon.1
-  refine ⟨gh, ?_, ?_, ?_, ?_⟩
-  · exact walk_skip (c' := c - 1) s.bestOrbits true hch hw
-  · exact skip_globalInv_congr hG rfl rfl rfl rfl rfl rfl rfl rfl rfl rfl
-  · have := cov_skipA st sz ls s c cs p ps ce x k hc ht hage hch hpth hget hon hx hx0 hw hcov
-    exact skip_covFrames_path_eq hpth this
-  · rw [hpth, hch] at haux
-    exact skip_frameAux_path_eq hpth (skip_frameAux haux m3 hcnt rfl rfl rfl rfl)
+  obtain ⟨gh, h⟩ := h
+  exact ⟨gh, dfs_skipA_v gh st sz ls s c cs p ps ce x k hc ht hsk hage hch hpth hget hon hx hx0 hJ h⟩
 end
 
 section
 variable {n m : Nat} {nb : Nbrs} {rf : Nat} {r : IR.St}
 
 set_option linter.unusedVariables false in
-theorem dfs_skipB (hnb : NbOK nb n) (st sz : Nat) (ls : List (Nat × Nat)) (s : LS) (c : Nat) (cs : List Nat) (p : Nat)
-    (ps : List Nat)
+/-- `dfs_skipB` with the ghost data explicit (unchanged by the skip) -/
+theorem dfs_skipB_v (hnb : NbOK nb n) (gh : Gh) (st sz : Nat) (ls : List (Nat × Nat)) (s : LS) (c : Nat) (cs : List Nat)
+    (p : Nat) (ps : List Nat)
     (ce : Nat) (bo : Disjoint.DS) (k : Nat) (hc : Core n s) (ht : TopOK s.op (k + 1) s.path s.choices ((st, sz) :: ls))
     (hsk : s.skipDeage = false) (hage : s.op.age + 1 = s.path.length) (hch : s.choices = c :: cs)
     (hpth : s.path = p :: ps) (hget : s.op.order.get (c - 1) = .ok ce)
     (hon : (decide (s.count > 0) && !hasPrefix s.flPath.toList ps.reverse && hasPrefix s.bestPath.toList ps.reverse) = true)
     (hh : h2Best s.op s.bestOrbits (c - 1) ce = .ok (true, bo))
-    (hJ : CertN n m nb ((st, sz) :: ls) s) (h : DN n nb rf r ((st, sz) :: ls) s) :
-    DN n nb rf r ((st, sz) :: ls) { s with choices := (c - 1) :: cs, bestOrbits := bo, skipDeage := true } := by
-  obtain ⟨gh, hw, hG, hcov, haux⟩ := h
+    (hJ : CertN n m nb ((st, sz) :: ls) s) (h : DNv n nb rf r gh ((st, sz) :: ls) s) :
+    DNv n nb rf r gh ((st, sz) :: ls) { s with choices := (c - 1) :: cs, bestOrbits := bo, skipDeage := true } := by
+  obtain ⟨hw, hG, hcov, haux⟩ := h
   obtain ⟨m1, m2, m3, m4, m5⟩ := top_member hc ht hage hch hpth hget hw
   simp only [Bool.and_eq_true, decide_eq_true_eq, Bool.not_eq_true'] at hon
   obtain ⟨⟨hcnt, hnfp⟩, hbp⟩ := hon
@@ -101,7 +116,7 @@ theorem dfs_skipB (hnb : NbOK nb n) (st sz : Nat) (ls : List (Nat × Nat)) (s : 
   have hcp : c - 1 < n := by
     have := Sl.get_lt hget; rw [hc.part.lenOrder] at this; exact this
   obtain ⟨b1, b2, b3, _⟩ := h2Best_spec hc.part hds hdsz m5 hcp hh
-  refine ⟨gh, ?_, ?_, ?_, ?_⟩
+  refine ⟨?_, ?_, ?_, ?_⟩
   · exact walk_skip (c' := c - 1) bo true hch hw
   · constructor
     · exact hG.first
@@ -117,5 +132,18 @@ theorem dfs_skipB (hnb : NbOK nb n) (st sz : Nat) (ls : List (Nat × Nat)) (s : 
       (cov_skipB_step (m := m) hnb st sz ls s c cs p ps ce bo k hc ht hage hch hpth hget hnf hh hw hcov
         (fun γ => γ ∈ gh.bgs) hS hds hdsz horb)
   · exact skip_frameAux_path_eq hpth (skip_frameAux haux' m3 hcnt rfl rfl rfl rfl)
+
+set_option linter.unusedVariables false in
+theorem dfs_skipB (hnb : NbOK nb n) (st sz : Nat) (ls : List (Nat × Nat)) (s : LS) (c : Nat) (cs : List Nat) (p : Nat)
+    (ps : List Nat)
+    (ce : Nat) (bo : Disjoint.DS) (k : Nat) (hc : Core n s) (ht : TopOK s.op (k + 1) s.path s.choices ((st, sz) :: ls))
+    (hsk : s.skipDeage = false) (hage : s.op.age + 1 = s.path.length) (hch : s.choices = c :: cs)
+    (hpth : s.path = p :: ps) (hget : s.op.order.get (c - 1) = .ok ce)
+    (hon : (decide (s.count > 0) && !hasPrefix s.flPath.toList ps.reverse && hasPrefix s.bestPath.toList ps.reverse) = true)
+    (hh : h2Best s.op s.bestOrbits (c - 1) ce = .ok (true, bo))
+    (hJ : CertN n m nb ((st, sz) :: ls) s) (h : DN n nb rf r ((st, sz) :: ls) s) :
+    DN n nb rf r ((st, sz) :: ls) { s with choices := (c - 1) :: cs, bestOrbits := bo, skipDeage := true } := by
+  obtain ⟨gh, h⟩ := h
+  exact ⟨gh, dfs_skipB_v hnb gh st sz ls s c cs p ps ce bo k hc ht hsk hage hch hpth hget hon hh hJ h⟩
 end
 end CanonF
